@@ -364,6 +364,93 @@ def handle_violation(exe, prop, seed, viol):
     return mn, text
 
 
+def handle_violation_portable(exe, prop, seed, viol):
+    """Like handle_violation, for runs that used the portable generator."""
+    if viol["how"] != "report":
+        # regenerate with --portable
+        os.makedirs(REPLAYS, exist_ok=True)
+        fam = viol.get("family")
+        raw = os.path.join(REPLAYS, "%s-seed%d-family%s.raw.json" % (prop, seed, fam))
+        cmd = [exe, "gen", "--prop", prop, "--seed", str(seed), "--index", str(fam), "--portable"]
+        if viol["how"] == "trap" and viol.get("choices"):
+            cmd += ["--choices", ",".join(str(c) for c in viol["choices"]), "--variant", str(viol.get("variant", 0))]
+        r = subprocess.run(cmd, capture_output=True, text=True, env=ENV_BASE)
+        if r.returncode != 0:
+            raise HarnessError("memsim gen failed: " + r.stderr)
+        famj = json.loads(r.stdout)
+        famj["replay"] = True
+        if not famj.get("choices"):
+            famj["choices"] = [[] for _ in famj["variants"]]
+        viol = {"how": "report", "family": fam, "replay": famj}
+    return handle_violation(exe, prop, seed, viol)
+
+
+def flavour_replay_file(prop, seed, family, flavour):
+    """A replay file for "two build flavours disagree on this family"."""
+    os.makedirs(REPLAYS, exist_ok=True)
+    exe = build("dbg")
+    r = subprocess.run([exe, "gen", "--prop", prop, "--seed", str(seed), "--index", str(family), "--portable"],
+                       capture_output=True, text=True, env=ENV_BASE)
+    if r.returncode != 0:
+        raise HarnessError("memsim gen failed: " + r.stderr)
+    fam = json.loads(r.stdout)
+    fam["substrate"] = {"flavours": ["dbg", flavour], "portable": True}
+    path = os.path.join(REPLAYS, "%s-seed%d-family%s.%s-vs-dbg.json" % (prop, seed, family, flavour))
+    with open(path, "w") as f:
+        json.dump(fam, f)
+    return path
+
+
+def replay_any(prop, path):
+    """Re-executes a replay file on the substrate it records. Returns
+    (violated, text)."""
+    with open(path) as f:
+        fam = json.load(f)
+    sub = fam.get("substrate")
+    if not sub:
+        exe = build("dbg")
+        code, parsed, err = run_replay(exe, path)
+        if code in (1, 77, "hang"):
+            viol = {"how": "trap" if code == 77 else ("hang" if code == "hang" else "report"),
+                    "line": " ".join(l for l in (err or "").splitlines() if l.startswith("TRAP"))}
+            return True, describe(viol, parsed)
+        if code == 0:
+            return False, "clean"
+        raise HarnessError("replay failed: " + (err or "")[-2000:])
+    if "flavours" in sub:
+        hashes = []
+        for fl in sub["flavours"]:
+            exe = build(fl)
+            code, parsed, err = run_replay(exe, path)
+            if code in (1, 77, "hang"):
+                return True, "[flavour %s] %s" % (fl, describe({"how": "report"}, parsed))
+            if code != 0 or not parsed:
+                raise HarnessError("replay failed under flavour %s: %s" % (fl, (err or "")[-2000:]))
+            hashes.append(parsed["log_hashes"][0])
+        if len(set(hashes)) > 1:
+            return True, "result logs differ between build flavours %s" % sub["flavours"]
+        return False, "clean"
+    import miri as M
+    bad, text = M.replay_under_miri(path, sub)
+    if bad:
+        return True, text
+    if sub.get("portable"):
+        # also compare with the native answer
+        exe = build("dbg")
+        code, parsed, err = run_replay(exe, path)
+        env = M.miri_env(sub["miri_target"], sub.get("miri_seed", 0), sub.get("extra_flags", ""),
+                         sub.get("rustflags_extra", ""))
+        r = subprocess.run(M.miri_cmd(sub["miri_target"], ["replay", path]), cwd=SIM, env=env, capture_output=True,
+                           text=True)
+        try:
+            mh = json.loads(r.stdout.strip().splitlines()[-1])["log_hashes"][0]
+        except Exception:
+            raise HarnessError("Miri replay produced no log hash: " + r.stderr[-2000:])
+        if parsed and parsed["log_hashes"][0] != mh:
+            return True, "result log differs between native x86_64 and Miri %s" % sub["miri_target"]
+    return False, "clean"
+
+
 # ---------------------------------------------------------------------------
 # known findings
 
@@ -433,20 +520,14 @@ def main(argv):
             return 2
         seed = int(os.environ.get("VERIF_SEED", "1"))
         if len(argv) >= 3 and argv[1] == "--replay":
-            exe = build("dbg")
             path = argv[2]
-            code, parsed, err = run_replay(exe, path)
-            if code in (1, 77, "hang"):
-                viol = {"how": "trap" if code == 77 else ("hang" if code == "hang" else "report"),
-                        "line": " ".join(l for l in (err or "").splitlines() if l.startswith("TRAP"))}
-                print("reproduced: " + describe(viol, parsed))
+            bad, text = replay_any(prop, path)
+            if bad:
+                print("reproduced: " + text)
                 print("VIOLATION property=%s replay=%s" % (prop, path))
                 return 1
-            if code == 0:
-                print("replay ran clean: no violation of %s" % prop)
-                return 0
-            sys.stderr.write(err or "")
-            return 2
+            print("replay ran clean: no violation of %s" % prop)
+            return 0
         tier = argv[1] if len(argv) > 1 else os.environ.get("VERIF_TIER", "quick")
         if tier not in ("quick", "thorough"):
             print("tier must be quick or thorough")
